@@ -22,6 +22,14 @@ import (
 
 const ResumeEnv = "VERIF_RESUME"
 
+// MaxDeaths (0 = unlimited): once this many confirmed deaths were reported, a worker whose item dies
+// again stops instead of resuming after it (every death already is a violation; on a tree where
+// hundreds of inputs hang the sweep would otherwise spend 2 x the CPU budget on each). DeathsCapped
+// tells the caller that the enumeration was cut short.
+var MaxDeaths int
+var DeathsCapped bool
+var confirmedDeaths int
+
 // RetriedDeaths counts worker deaths that did not repeat when the item was re-run in a fresh process.
 var RetriedDeaths int
 
@@ -151,7 +159,15 @@ func RunResumableWorkers(n, items int, memLimitKB int, onLine func(worker int, l
 				}
 				cbMu.Lock()
 				onDeath(Death{Item: inflight, Reason: fmt.Sprint(werr), Stderr: stderrBuf.String()})
+				confirmedDeaths++
+				stop := MaxDeaths > 0 && confirmedDeaths >= MaxDeaths
+				if stop {
+					DeathsCapped = true
+				}
 				cbMu.Unlock()
+				if stop {
+					return
+				}
 				resume = inflight + 1
 			}
 		}(i)
